@@ -98,3 +98,33 @@ func mulHi(a, b uint64) uint64 {
 func FieldFromLimbs(l []uint64) field.Element { return field.VerifFromLimbs(l) }
 func FieldLimbs(fe *field.Element) []uint64   { return field.VerifLimbs(fe) }
 func FieldLimbWeights() []uint                { return field.VerifLimbWeights() }
+
+// Coherent checks the extended-coordinate invariants of a point object on raw coordinates: Z != 0, T*Z == X*Y and
+// the curve equation (-X^2 + Y^2)Z^2 == Z^4 + d X^2 Y^2. Returns "" when they hold.
+func Coherent(p *curve.EdwardsPoint) string {
+	X, Y, Z, T := curve.VerifCoords(p)
+	var a, b field.Element
+	if Z.IsZero() == 1 {
+		return "Z == 0"
+	}
+	a.Mul(T, Z)
+	b.Mul(X, Y)
+	if a.Equal(&b) != 1 {
+		return "extended coordinate T is not X*Y/Z"
+	}
+	var xx, yy, zz, lhs, rhs, d field.Element
+	xx.Square(X)
+	yy.Square(Y)
+	zz.Square(Z)
+	lhs.Sub(&yy, &xx)
+	lhs.Mul(&lhs, &zz)
+	d.Set(curve.VerifFieldConstants()["EDWARDS_D"])
+	rhs.Mul(&xx, &yy)
+	rhs.Mul(&rhs, &d)
+	zz.Square(&zz)
+	rhs.Add(&rhs, &zz)
+	if lhs.Equal(&rhs) != 1 {
+		return "coordinates are not on the curve"
+	}
+	return ""
+}
